@@ -168,7 +168,7 @@ def history(srv, rng, res, ctl, hn):
             free = [cl for cl in clients if cl.alive and cl.blocked is None]
             blocked = [cl for cl in clients if cl.alive and cl.blocked is not None]
             act = rng.choice(["block", "block", "block", "push", "push", "push", "pop", "pipeline", "multi-push", "script-push",
-                              "disconnect", "timeout", "block-fast", "rename-push"])
+                              "disconnect", "timeout", "block-fast", "rename-push", "block-in-multi"])
             if act in ("block", "block-fast") and free:
                 cl = rng.choice(free)
                 keys = rng.sample(KEYS, rng.choice([1, 1, 2, 3]))
@@ -267,6 +267,39 @@ def history(srv, rng, res, ctl, hn):
                 served = sim.serve()
                 if not expect_deliveries(served, "pipeline-push-pop"):
                     return False
+            elif act == "block-in-multi" and free:
+                # a blocking pop queued in a transaction never blocks: it pops what is there or answers nil, the
+                # connection goes on answering, and nothing of it stays behind in the registry
+                who = rng.choice(free)
+                keys = rng.sample(KEYS, rng.choice([1, 2]))
+                left = rng.random() < 0.5
+                op = b"BLPOP" if left else b"BRPOP"
+                log.append("c%d MULTI %s %s 0 EXEC" % (who.i, op.decode(), b" ".join(keys).decode()))
+                who.c.cmd("MULTI")
+                who.c.cmd(op, *keys, rng.choice([b"0", b"0.2"]))
+                ex = who.c.cmd("EXEC")
+                ready = [k for k in keys if sim.lists[k]]
+                if ready:
+                    k = ready[0]
+                    v = sim.lists[k].pop(0) if left else sim.lists[k].pop()
+                    want = [[k, v]]
+                    delivered[v] = who.i
+                else:
+                    want = None
+                res.evaluations += 1
+                res.cell("block-in-multi", "pops" if ready else "nil")
+                okk = (ex == want) if ready else (isinstance(ex, list) and len(ex) == 1 and (ex[0] is None or ex[0] is NULL_ARRAY))
+                if not okk:
+                    return bad("in-multi/exec-reply", "c%d MULTI; %s %s 0; EXEC -> %s, expected %s" % (who.i, op.decode(), resp.show(keys), resp.show(ex),
+                                                                                                 resp.show(want) if ready else "[nil]"))
+                try:
+                    pong = who.c.cmd("PING", timeout=3)
+                except Timeout:
+                    return bad("stranded/after-blocking-pop-in-multi", "c%d: after MULTI; %s %s; EXEC -> %s the connection no longer answers (PING: no reply in 3 s)" % (
+                        who.i, op.decode(), resp.show(keys), resp.show(ex)))
+                if pong != resp.PONG:
+                    return bad("in-multi/ping-after", "c%d: PING after the transaction -> %s" % (who.i, resp.show(pong)))
+                settle(3)
             elif act == "disconnect" and blocked:
                 cl = rng.choice(blocked)
                 log.append("c%d disconnects while blocked on %s" % (cl.i, b" ".join(cl.blocked["keys"]).decode()))
